@@ -89,6 +89,8 @@ def project(prog, cfg):
                     "def test_fix():", "def test_fix(self):").replace("def test_trim():", "def test_trim(self):").replace(
                     "def test_update():", "def test_update(self):").replace("def test_ext_create():", "def test_ext_create(self):").replace(
                     "def test_ext_keep():", "def test_ext_keep(self):").split("\n"))
+                if cfg.get("xfail_fn") is not None:
+                    body = body.replace("    def test_", "    @pytest.mark.xfail%s\n    def test_" % cfg["xfail_fn"])
                 mark = "@pytest.mark.xfail%s\n" % xf if "class" in how else ""
                 pm = "pytestmark = pytest.mark.xfail%s\n" % xf if "module" in how else ""
                 files[k] = "import pytest\n" + head + "\n" + pm + "\n\n" + mark + "class TestX:\n" + body
@@ -129,14 +131,24 @@ def environ(cfg):
     if cfg.get("tty"):
         e["FORCE_COLOR"] = "true"
     if cfg.get("ci"):
-        e[cfg["ci"]] = "true"
+        e[cfg["ci"]] = cfg.get("ci_value", "true")
     if cfg.get("pycharm"):
         e["PYCHARM_HOSTED"] = "1"
     return e
 
 
+def xfail_live(cfg):
+    """pytest xfails a test when any of its xfail marks (own or inherited) has no condition or a true one."""
+    marks = []
+    if cfg.get("xfail") is not None:
+        marks += cfg["xfail"].split("\n@pytest.mark.xfail")
+    if cfg.get("xfail_fn") is not None:
+        marks += cfg["xfail_fn"].split("\n@pytest.mark.xfail")
+    return any(not m.startswith("(False") for m in marks)
+
+
 def pending(prog, cfg):
-    if cfg.get("xfail") is not None and cfg.get("xfail") in ("", "()", "(strict=True)", "(reason='x')", "(True, reason='x')"):
+    if xfail_live(cfg):
         return ()
     if prog == "onlytrim":
         return ("trim",)
@@ -266,6 +278,9 @@ def _delta(a, b):
 
 # ------------------------------------------------------------------ configuration space
 
+CI_VALUES = {"CI": ("1", "True", "woodpecker"), "BUILD_ID": ("4711", "2024-01-01_12-00-00"), "BUILD_NUMBER": ("17",), "JENKINS_URL": ("https://ci.example.org/jenkins/",),
+             "HUDSON_URL": ("http://hudson.example.org/",), "TEAMCITY_VERSION": ("2023.11.1 (build 147412)",), "bamboo.buildKey": ("PROJ-PLAN-JOB1",),
+             "BUILDKITE": ("true",), "CIRCLECI": ("true",), "CONTINUOUS_INTEGRATION": ("true",), "GITHUB_ACTIONS": ("true",), "TRAVIS": ("true",)}
 CI_VARS = ("CI", "bamboo.buildKey", "BUILD_ID", "BUILD_NUMBER", "BUILDKITE", "CIRCLECI", "CONTINUOUS_INTEGRATION",
            "GITHUB_ACTIONS", "HUDSON_URL", "JENKINS_URL", "TEAMCITY_VERSION", "TRAVIS")
 
@@ -303,6 +318,8 @@ def configs(tier):
     cf.append({"tty": True, "cli": ["fix"], "answers": "yyy"})
     cf.append({"tty": True, "env": ["trim"], "answers": "yyy"})
     for v in CI_VARS:                                         # CI
+        for val in CI_VALUES.get(v, ("1",)):                  # (values these variables really carry on the systems that set them)
+            cf.append({"ci": v, "ci_value": val, "cli": ["create", "fix", "trim", "update"]})
         cf.append({"ci": v, "cli": ["create", "fix", "trim", "update"]})
         cf.append({"ci": v, "pycharm": True, "cli": ["create"]})
     cf.append({"ci": "CI", "cli": ["review"], "answers": "yyyy"})
@@ -313,6 +330,16 @@ def configs(tier):
     for xf in ("", "()", "(strict=True)", "(reason='x')", "(False, reason='x')", "(True, reason='x')"):  # xfail
         for s in (list(CATS), ["create", "fix"], ["review"], ["trim"]):
             cf.append({"xfail": xf, "cli": s, "answers": "yyyy" if s == ["review"] else None})
+    F_, T_ = "(False, reason='x')", ""
+    stacks = [F_ + "\n@pytest.mark.xfail" + T_, T_ + "\n@pytest.mark.xfail" + F_, F_ + "\n@pytest.mark.xfail(False, reason='y')",
+              "(strict=True)\n@pytest.mark.xfail" + F_, F_ + "\n@pytest.mark.xfail" + F_ + "\n@pytest.mark.xfail(reason='z')"]
+    for xf in stacks:                                         # several xfail marks on one test: any live mark makes it xfail
+        for s in (list(CATS), ["create", "fix"], ["review"]):
+            cf.append({"xfail": xf, "cli": s, "answers": "yyyy" if s == ["review"] else None})
+    for how in ("class", "module", "classmodule"):            # an inherited mark and an own mark
+        for at, fn in ((T_, F_), (F_, T_), (F_, F_), (T_, T_)):
+            for s in (list(CATS), ["report", "fix"]):
+                cf.append({"xfail": at, "xfail_at": how, "xfail_fn": fn, "cli": s})
     for how in ("class", "module", "classmodule"):            # inherited xfail marks
         for s in (list(CATS), ["review"], ["report", "fix"]):
             cf.append({"xfail": "", "xfail_at": how, "cli": s, "answers": "yyyy" if s == ["review"] else None})
